@@ -1,7 +1,7 @@
 #!/bin/sh
 # usage: tools/seedconfirm.sh <agent worktree> <name>   -- confirm a seeded change independently in /tmp/seedwt and store it under seeded/<name>/
 SRC="$1"; NAME="$2"
-WT=/tmp/seedwt
+WT=${SEEDWT:-/tmp/seedwt}
 if [ ! -d "$WT" ]; then git -C /repo worktree add -q "$WT" HEAD; fi
 git -C "$WT" checkout -q --detach "$(git -C /repo rev-parse HEAD)"; git -C "$WT" checkout -q -- .; git -C "$WT" clean -fdq -e target
 cp "$SRC/demo.sh" "$WT/demo.sh"; for f in "$SRC"/demo_* "$SRC"/demo/ ; do [ -e "$f" ] && cp -r "$f" "$WT/"; done
